@@ -44,11 +44,19 @@ def overlay(o):
     f.before("if let Some(c) = constraints.last_mut() { *c =", """proof {
     assert(accumulators@.len() == num_bits / 2);
 }""")
-    f.before("constraints.into_iter()", """proof {
+    PRE = """proof {
     let nb = num_bits as int; let n0 = wits(*old(self)).len() as int;
     assert(rc_final(constraints@, nb, n0));
 }
-let ghost cs0 = constraints@;""")
+let ghost cs0 = constraints@;"""
+    from vlib.overlay import AnchorLost
+    try:
+        f.before("constraints.into_iter()", PRE)
+        loop_form = False
+    except AnchorLost:
+        # the same traversal written as a `for` loop (the form D1 produces): annotate it directly
+        f.before_loop(1, PRE)
+        loop_form = True
     f.loop(0, invariant=[
         "bits@.len() == 256",
         "wits(*self).len() == wits(*old(self)).len() + (i - pad)",
@@ -64,9 +72,7 @@ let ghost cs0 = constraints@;""")
         bits.reverse();""", name="cut_le_bits", params="bits: BlsScalar", ret="r: Vec<bool>", tail="bits",
           call="let bits: Vec<bool> = Self::cut_le_bits(bits);",
           ensures=["r@.len() == 256", "forall|k: int| 0 <= k < 256 ==> r@[k] == bit_of(cv(bits), k)"])
-    f.for_each_to_loop("""constraints
-            .into_iter()
-            .for_each(|c| self.append_custom_gate(c));""", "c", "constraints", "self.append_custom_gate(c)", iter_name="it", invariant=[
+    INV = [
         "rc_final(cs0, num_bits as int, wits(*old(self)).len() as int)",
         "0 <= it.index@ <= cs0.len()",
         "it.seq() == cs0",
@@ -74,7 +80,14 @@ let ghost cs0 = constraints@;""")
         "wits(*self).subrange(0, wits(*old(self)).len() as int) == wits(*old(self))",
         "pis(*self) == pis(*old(self))",
         "gates(*self) == gates(*old(self)) + rc_rows(num_bits as int, wits(*old(self)).len() as int).subrange(0, it.index@)",
-    ])
+    ]
+    if loop_form:
+        f.loop_iter_name(1, "it")
+        f.loop(1, invariant=INV)
+    else:
+        f.for_each_to_loop("""constraints
+            .into_iter()
+            .for_each(|c| self.append_custom_gate(c));""", "c", "constraints", "self.append_custom_gate(c)", iter_name="it", invariant=INV)
 
     # ---- recompose_bits (host-side helper)
     b = o.file("src/composer/bits.rs")
